@@ -1,6 +1,6 @@
-(* Proofs/Kind127Proofs.v -- the SX127x driver's primitives against the chip-side monitor.
-   LoRa-mode selection (item ILoraMode) is left out of what a start requires here (x_lora = false): that requirement is refuted for the
-   unchanged driver by the known finding sx127x-failed-reset-leaves-fsk-mode (see Props/C14.v for the witness). *)
+(* Proofs/Kind127Proofs.v -- the SX127x driver's primitives against the chip-side monitor, for both readings of the context flag x_lora
+   (x_lora = true: the selection of the LoRa modem, item ILoraMode, counts among the things every TX / RX / CAD start depends on; this holds
+   since the wake-up path re-asserts sleep | LoRa, /repo fix "SX127x ensure_ready selects the LoRa modem"). *)
 From Coq Require Import ZArith NArith List Bool Lia Arith.
 From LoraV Require Import Base.Bytes Gen.PhyTables Model.PhyCore Model.Sx126x Model.Sx127x Model.Toa Model.LoraDrv Model.LoraKinds
   Spec.ChipMon Proofs.PhyHoare Proofs.PlainProgs Proofs.KindSpec Proofs.LoraInv Proofs.Kind126Proofs.
@@ -16,8 +16,8 @@ Ltac expose7 :=
 Ltac plain7 := expose7; repeat (pstep; expose7).
 
 Section K127.
-  Variables (tc dc li : bool).
-  Definition x127 : mctx := {| x_fam := K127; x_tcxo := tc; x_dcdc := dc; x_listen := li; x_lora := false |}.
+  Variables (tc dc li lo : bool).
+  Definition x127 : mctx := {| x_fam := K127; x_tcxo := tc; x_dcdc := dc; x_listen := li; x_lora := lo |}.
   Notation x := x127.
 
   Lemma power_plain7 h q p md istx : plainP x plain_err [IPaConfig] [] (k_power (kind127 h q) p md istx).
@@ -95,27 +95,44 @@ Section K127.
   Qed.
 
   Lemma reset_ok7 h q : forall (Q : unit + rerr -> drv -> mon -> Prop) d m, okm m ->
-      (forall r m', okm m' -> (cm m' = CStby \/ (cm m' = CSleep /\ x_fam x = K127)) -> pin_err r -> Q r d m') ->
+      (forall r m', okm m' -> (cm m' = CStby \/ (cm m' = CSleep /\ x_fam x = K127)) -> (is_ok r -> lora_sel x m') -> pin_err r -> Q r d m') ->
       wp x (k_reset (kind127 h q)) Q d m.
   Proof.
     intros Q d m O HQ. cbn [k_reset kind127]. unfold reset_127, set_sleep_127, spi_write, act1, iv. cbn [bind wp].
     set (m0 := mon_event x (mon_event x m (TIv IvReset)) (TIv IvSwOff)).
     assert (O0 : okm m0) by exact O. assert (C0 : cm m0 = CStby) by reflexivity.
-    split; [apply HQ; [exact O0|left; exact C0|apply pin_spi]|].
+    split; [apply HQ; [exact O0|left; exact C0|intros []|apply pin_spi]|].
     intros ts got Hm. apply segs_match_w1 in Hm. destruct Hm as [-> ->]. rewrite ev7_w1 by discriminate.
     rewrite (opmode_write m0 _ CSleep) by reflexivity. cbv iota.
-    destruct (lora_upd_facts m0 (cmode_eqb (cm m0) CSleep || cmode_eqb CSleep CSleep) O0) as [O1 [L1 [C1 A1]]].
-    apply HQ; [exact O1|right; split; reflexivity|apply pin_okr].
+    replace (cmode_eqb (cm m0) CSleep || cmode_eqb CSleep CSleep) with true by (destruct (cmode_eqb (cm m0) CSleep); reflexivity).
+    destruct (lora_upd_facts m0 true O0) as [O1 [L1 [C1 A1]]].
+    apply HQ; [exact O1|right; split; reflexivity|intros _ _ _; cbn; unfold upd; reflexivity|apply pin_okr].
   Qed.
 
   Lemma ensure_ok7 h q : forall dm (Q : unit + rerr -> drv -> mon -> Prop) d m, okm m ->
       (cm m = CSleep -> dm = MSleep \/ x_fam x = K127) -> (cm m = CDuty -> awake m = false -> is_duty dm = true) ->
-      (forall r m', okm m' -> le_valid m m' -> (cm m' = cm m \/ (cm m = CSleep /\ cm m' = CStby)) ->
-                    (is_ok r -> x_fam x = K126 \/ ready m -> ready m') -> pin_err r -> Q r d m') ->
+      (forall r m', okm m' -> le_valid m m' -> (cm m' = cm m \/ (cm m = CSleep /\ cm m' = CStby) \/ (dm = MSleep /\ cm m' = CSleep)) ->
+                    (is_ok r -> x_fam x = K126 \/ (ready m /\ dm <> MSleep) -> ready m') ->
+                    (is_ok r -> x_fam x = K127 -> dm = MSleep -> valid m' ILoraMode = true) -> pin_err r -> Q r d m') ->
       wp x (k_ensure_ready (kind127 h q) dm) Q d m.
   Proof.
-    intros dm Q d m O _ _ HQ. cbn [k_ensure_ready kind127 wp]. apply HQ; [exact O|apply le_refl|left; reflexivity| |apply pin_okr].
-    intros _ [F|R]; [discriminate F|exact R].
+    intros dm Q d m O _ _ HQ. cbn [k_ensure_ready kind127]. unfold ensure_ready_127.
+    destruct (rmode_eqb dm MSleep) eqn:ES.
+    - (* the driver believes the chip asleep: sleep | LoRa is written (again) *)
+      assert (D : dm = MSleep) by (destruct dm as [| | |[n| |a b]| |]; try discriminate ES; reflexivity). subst dm.
+      unfold spi_write, act1. cbn [wp].
+      split; [apply HQ; [exact O|apply le_refl|left; reflexivity|intros []|intros []|apply pin_spi]|].
+      intros ts got Hm. apply segs_match_w1 in Hm. destruct Hm as [-> ->]. rewrite ev7_w1 by discriminate.
+      rewrite (opmode_write m _ CSleep) by reflexivity. cbv iota.
+      replace (cmode_eqb (cm m) CSleep || cmode_eqb CSleep CSleep) with true by (destruct (cmode_eqb (cm m) CSleep); reflexivity).
+      destruct (lora_upd_facts m true O) as [O1 [L1 [C1 A1]]].
+      apply HQ; [exact O1|exact L1|right; right; split; reflexivity| | |apply pin_okr].
+      + intros _ [F|[_ X]]; [discriminate F|exfalso; apply X; reflexivity].
+      + intros _ _ _. cbn. unfold upd. reflexivity.
+    - assert (D : dm <> MSleep) by (intros ->; discriminate ES).
+      replace (match dm with MSleep => true | _ => false end) with false by (destruct dm as [| | |[n| |a b]| |]; try reflexivity; discriminate ES).
+      cbn [wp]. apply HQ; [exact O|apply le_refl|left; reflexivity| |intros _ _ X; contradiction|apply pin_okr].
+      intros _ [F|[R _]]; [discriminate F|exact R].
   Qed.
 
   Lemma start_same m k : forallb (valid m) (need x k) = true -> start x m k = m.
@@ -198,7 +215,7 @@ Section K127.
       intros e E. destruct (P' e E) as [-> | ->]; [left|right; left]; reflexivity.
   Qed.
 
-  Definition it_cad127 : list item := [ISync; IMod; IMod2; IIrqMask; IDioMap; IFreq; IFreqMid; IFreqLsb] ++ (if tc then [ITcxo] else []).
+  Definition it_cad127 : list item := ([ISync; IMod; IMod2; IIrqMask; IDioMap; IFreq; IFreqMid; IFreqLsb] ++ (if lo then [ILoraMode] else [])) ++ (if tc then [ITcxo] else []).
   Lemma cad_ok7 h q : forall md (Q : unit + rerr -> drv -> mon -> Prop) d m, (md_sf md < 8)%N -> okm m -> ready m -> valid_all m it_cad127 ->
       (forall r m', okm m' -> le_valid m m' -> (is_ok r -> cm m' = CCad) -> (cm m' = cm m \/ cm m' = CCad) -> pin_err r -> Q r d m') ->
       wp x (k_cad (kind127 h q) md) Q d m.
@@ -212,7 +229,7 @@ Section K127.
     intros [] m2 L2 _. pose proof (prog_le_trans _ _ _ L1 L2) as L12.
     eapply (final_start7 _ StCad CCad); [reflexivity|reflexivity|discriminate|intros mm; reflexivity|apply L12|eapply prog_le_ready; eassumption|exact L12| |exact HQ].
     apply forallb_forall. intros i Hi. assert (VV : valid_all m2 it_cad127) by (eapply valid_all_le; [apply L12|exact V]). apply VV.
-    unfold need in Hi. cbn [x_fam x127 x_tcxo x_lora] in Hi. unfold it_cad127. rewrite app_nil_r in Hi. exact Hi.
+    unfold need in Hi. cbn [x_fam x127 x_tcxo x_lora] in Hi. unfold it_cad127. exact Hi.
   Qed.
 
   (* ---- reading the interrupt flags *)
@@ -300,6 +317,7 @@ Section K127.
   Lemma plain_weak A want (p : prog A) : plain_spec x plain_err want p -> weak_spec x want p.
   Proof.
     intros HP Q d m O R HQ. apply HP; [exact O|exact R|]. intros r m' [L1 [L2 [L3 L4]]] V E. apply HQ; try assumption.
+    intros LS F E'. apply L3, LS; assumption.
   Qed.
 
   Definition kind127_ok h q (HT : h_tcxo h = tc) : kind_ok x (kind127 h q).
@@ -325,12 +343,27 @@ Section K127.
     - apply rx_ok7.
     - apply cad_ok7.
     - apply procirq_ok7.
-    - (* cover_tx *) intros m V. apply forallb_forall. intros i Hi. apply V. unfold need, no_listen in Hi. cbn [x_fam x127 x_dcdc x_tcxo x_listen x_lora] in Hi.
-      unfold it_init127. destruct tc; cbn [app In] in Hi |- *; tauto.
-    - (* cover_rx *) intros m V. apply forallb_forall. intros i Hi. apply V. unfold need, no_listen in Hi. cbn [x_fam x127 x_dcdc x_tcxo x_listen x_lora] in Hi.
-      unfold it_init127. destruct tc; cbn [app In] in Hi |- *; tauto.
-    - (* cover_cad *) intros m V i Hi. apply V. unfold it_cad127 in Hi. unfold it_init127. destruct tc; cbn [app In] in Hi |- *; tauto.
-    - (* cover_listen *) intros m LI V. apply forallb_forall. intros i Hi. apply V. unfold need in Hi. cbn [x_fam x127 x_dcdc x_tcxo x_listen x_lora] in Hi, LI.
-      rewrite LI in Hi. unfold it_init127. destruct tc; cbn [app In] in Hi |- *; tauto.
+    - (* cover_tx *) intros m V LS. apply forallb_forall. intros i Hi. unfold need, no_listen in Hi. cbn [x_fam x127 x_dcdc x_tcxo x_listen x_lora] in Hi.
+      apply in_app_or in Hi. destruct Hi as [Hi|Hi]; [apply in_app_or in Hi; destruct Hi as [Hi|Hi]|].
+      + apply V. unfold it_init127. destruct tc; cbn [app In] in Hi |- *; tauto.
+      + destruct lo eqn:EL; [|destruct Hi]. destruct Hi as [<-|[]]. apply LS; [reflexivity|exact EL].
+      + apply V. unfold it_init127. destruct tc; cbn [app In] in Hi |- *; tauto.
+    - (* cover_rx *) intros m V LS. apply forallb_forall. intros i Hi. unfold need, no_listen in Hi. cbn [x_fam x127 x_dcdc x_tcxo x_listen x_lora] in Hi.
+      apply in_app_or in Hi. destruct Hi as [Hi|Hi]; [apply in_app_or in Hi; destruct Hi as [Hi|Hi]|].
+      + apply V. unfold it_init127. destruct tc; cbn [app In] in Hi |- *; tauto.
+      + destruct lo eqn:EL; [|destruct Hi]. destruct Hi as [<-|[]]. apply LS; [reflexivity|exact EL].
+      + apply V. unfold it_init127. destruct tc; cbn [app In] in Hi |- *; tauto.
+    - (* cover_cad *) intros m V LS i Hi. unfold it_cad127 in Hi.
+      apply in_app_or in Hi. destruct Hi as [Hi|Hi]; [apply in_app_or in Hi; destruct Hi as [Hi|Hi]|].
+      + apply V. unfold it_init127. destruct tc; cbn [app In] in Hi |- *; tauto.
+      + destruct lo eqn:EL; [|destruct Hi]. destruct Hi as [<-|[]]. apply LS; [reflexivity|exact EL].
+      + apply V. unfold it_init127. destruct tc; cbn [app In] in Hi |- *; tauto.
+    - (* cover_listen *) intros m LI V LS. apply forallb_forall. intros i Hi. unfold need in Hi. cbn [x_fam x127 x_dcdc x_tcxo x_listen x_lora] in Hi, LI.
+      rewrite LI in Hi.
+      apply in_app_or in Hi. destruct Hi as [Hi|Hi]; [apply in_app_or in Hi; destruct Hi as [Hi|Hi]|].
+      + apply V. unfold it_init127. destruct tc; cbn [app In] in Hi |- *; tauto.
+      + destruct lo eqn:EL; [|destruct Hi]. destruct Hi as [<-|[]]. apply LS; [reflexivity|exact EL].
+      + apply V. unfold it_init127. destruct tc; cbn [app In] in Hi |- *; tauto.
+    - (* cad_lora *) intros m V _ EL. cbn [x_lora x127] in EL. apply V. unfold it_cad127. rewrite EL. apply in_or_app. left. apply in_or_app. right. left. reflexivity.
   Defined.
 End K127.
